@@ -307,10 +307,31 @@ type c13Case struct {
 	Choices []int      `json:"choices"`
 }
 
+// yieldWriter is a destination without WriteString whose Write is a scheduling point taken before the bytes are
+// copied (a real destination - pipe, socket, compressor - parks the goroutine exactly there).
+type yieldWriter struct{ buf *bytes.Buffer }
+
+func (w yieldWriter) Write(p []byte) (int, error) {
+	hooks.Point(2000001)
+	return w.buf.Write(p)
+}
+
+// c13Bodies: calls < 100: Sanitize, then calls-1 repeats through the other buffer-returning entry points;
+// calls >= 100: one SanitizeReaderToWriter into a yieldWriter.
 func c13Bodies(inputs []string, calls int) []func(p *bluemonday.Policy) string {
 	var out []func(p *bluemonday.Policy) string
 	for _, in := range inputs {
 		in := in
+		if calls >= 100 {
+			out = append(out, func(p *bluemonday.Policy) string {
+				var buf bytes.Buffer
+				if err := p.SanitizeReaderToWriter(strings.NewReader(in), yieldWriter{&buf}); err != nil {
+					return "ERROR: " + err.Error()
+				}
+				return buf.String()
+			})
+			continue
+		}
 		out = append(out, func(p *bluemonday.Policy) string {
 			r := p.Sanitize(in)
 			for k := 1; k < calls; k++ {
@@ -746,6 +767,8 @@ func runC13(c *run.Ctx) {
 			exploreC13(c, mk, ins, 1, true, false, 1, 0, sq, fmt.Sprintf("2g-pair%d-c1", pi))
 		}
 		exploreC13(c, mk, []string{c13Inputs[0], c13Inputs[1]}, 1, true, true, 1, 1, []string{seq[0], seq[1]}, "2g-maporder-c1")
+		// the streaming entry point into a destination whose Write parks the goroutine
+		exploreC13(c, mk, []string{c13Inputs[0], c13Inputs[2]}, 101, true, false, 1, 0, []string{seq[0], seq[2]}, "2g-writer-c1")
 		for pi, pr := range pairs {
 			if c.Quick() && pi >= 2 {
 				break // quick: two pairs at c<=2 (the other four at c<=1 above)
@@ -767,6 +790,7 @@ func runC13(c *run.Ctx) {
 			exploreC13(c, mk, short, 1, true, true, 1, 2, sseq, "2g-short-maporder-c1")
 			exploreC13(c, mk, short, 1, true, false, 3, 0, sseq, "2g-short-c3")
 			exploreC13(c, mk, []string{c13Inputs[0], c13Inputs[3]}, 2, true, false, 2, 0, []string{seq[0], seq[3]}, "2g-2calls-c2")
+			exploreC13(c, mk, []string{c13Inputs[1], c13Inputs[2]}, 101, true, false, 2, 0, []string{seq[1], seq[2]}, "2g-writer-c2")
 			exploreC13(c, mk, three, 1, true, false, 2, 0, tseq, "3g-c2") // largest, last: a budget cut-off ends here
 		}
 	}
